@@ -221,6 +221,7 @@ func runC05(e *Env) error {
 	if e.Replay == "" {
 		c05Renames(e, pool)
 		c05KeyChange(e, pool)
+		c05TypeKept(e)
 		c05CLI(e)
 	}
 	return nil
